@@ -147,7 +147,8 @@ class CategoricalDiscretizer(BaseDiscretizer):
             # grouping values to str_default if any
             if any(values_to_group):
                 # adding default value to the order
-                order.append(self.str_default)
+                if self.str_default not in order:
+                    order.append(self.str_default)
 
                 # grouping rare values in default value
                 order.group_list(values_to_group, self.str_default)
